@@ -48,6 +48,9 @@ def models(tier):
     out.append(monitors.ScenarioModel("connection-awaiting-DWA", wd,
                                       [("m", 0, n) for n in ("rq:3:own", "rq:4:own", "rq:9:own", "rq:3:own:missing", "dwa", "dwr")] + [("ans", 0), ("tick", 1)],
                                       MONS, max_socks=1, prelude=[("accept",), ("m", 0, "cer_p0"), ("tick", 3)]))
+    # a second deterministic scheduling policy (the I/O thread runs only when nothing else can): thorough tier
+    if tier == "thorough":
+        out = monitors.with_io_last(out)
     return out
 
 
